@@ -527,7 +527,11 @@ class FnTranslator:
         a = node.args
         if a.vararg or a.kwarg or a.kwonlyargs or a.posonlyargs:
             self.fail(node, "unsupported parameter kind (*args / **kwargs / keyword-only)")
-        decs = [ast.unparse(d) for d in node.decorator_list]
+        # `ignore_decorators` (plug-in, third round): decorators `name(..)` the plug-in declares to leave the function's
+        # behaviour alone (`docstring_format_args(..)` only formats `__doc__`); an entry assumption, stated in the plug-in
+        ign = set(self.cfg.get("ignore_decorators", ()))
+        decs = [ast.unparse(d) for d in node.decorator_list
+                if not (isinstance(d, ast.Call) and ast.unparse(d.func) in ign)]
         if decs not in ([], ["classmethod"], ["staticmethod"]):
             self.fail(node, "decorated function")
         # `@classmethod`: the first parameter (the class) is implicit and not bound (any use of it is rejected);
@@ -561,6 +565,14 @@ class FnTranslator:
                 info.defaults[pn] = a.defaults[j]
         self.info = info
         self.param_list = params
+        # `attr_stores` (plug-in, third round): attributes of a record parameter the function assigns at the top level of
+        # its body (`self.start_time = ...`).  Their initial values are parameters (always, also when never read) and
+        # the function -- which must return `None` on every path -- returns the tuple of their final values.
+        self.attr_stores = list(self.cfg.get("attr_stores", ())) if self.outer is None else []
+        for pth in self.attr_stores:
+            if pth.split(".")[0] not in self.records:
+                self.fail(node, f"`attr_stores`: `{pth}` is not rooted at a record parameter")
+            self.record_attrs[pth] = self.param_name(pth.replace(".", "_"))
         # which list parameters are mutated?
         self.mut_params = [pn for pn, _ln, sh in params if sh[0] == "L" and self.is_mutated(pn, node.body)]
         body = list(node.body)
@@ -659,6 +671,12 @@ class FnTranslator:
 
     def ret_term(self, node, val, env):
         _k, expr, sh = val
+        if getattr(self, "attr_stores", None):
+            if sh != U or self.loop_stack or self.mut_params or self.optional_ret:
+                self.fail(node or self.node, "`attr_stores`: a `return` with a value / inside a loop / with a mutated list")
+            vals = [env.d["@" + p][0] if env.d.get("@" + p) else self.record_attrs[p] for p in self.attr_stores]
+            self.ret_shape = N if len(vals) == 1 else T(*[N for _ in vals])
+            return ("pure", vals[0] if len(vals) == 1 else "(" + ", ".join(vals) + ")")
         if self.optional_ret:
             if sh == U:
                 if self.ret_shape is None:
@@ -712,7 +730,14 @@ class FnTranslator:
         if isinstance(st, ast.Return):
             if st.value is None:
                 return self.ret_term(st, ("unit", "()", U), env)
-            pre, val = self.expr(st.value, env)
+            rv = st.value
+            if self.cfg.get("ret_first_of_pair"):
+                # `return valid, f"..."` (third round): only the first component is translated; the second (a message
+                # string) is not evaluated -- assumed to have no effect and not to raise.  Every `return` must be a pair.
+                if not (isinstance(rv, ast.Tuple) and len(rv.elts) == 2):
+                    self.fail(st, "`ret_first_of_pair`: a `return` that is not a literal pair")
+                rv = rv.elts[0]
+            pre, val = self.expr(rv, env)
             return self.wrap_pre(pre, self.ret_term(st, val, env))
         if isinstance(st, ast.Assert):
             pre, c = self.cond(st.test, env)
@@ -802,6 +827,9 @@ class FnTranslator:
         # opaque call: the assigned names become parameters of the translated function
         if isinstance(value, ast.Call) and ast.unparse(value.func) in self.opaque:
             return self.opaque_assign(st, value, targets, env, rest)
+        # opaque attribute (third round): `lo, hi = cls.stride_range` where the plug-in declares the attribute opaque
+        if isinstance(value, ast.Attribute) and ast.unparse(value) in self.opaque:
+            return self.opaque_assign(st, value, targets, env, rest)
         # opaque target: `name = <anything>` where the configuration declares `name` opaque (a value computed
         # with floats); the name becomes a parameter
         if len(targets) == 1 and isinstance(targets[0], ast.Name) and targets[0].id in self.opaque_targets \
@@ -828,6 +856,19 @@ class FnTranslator:
             if rp is not None and self.used_as_record(targets[0].id):
                 env.d[targets[0].id] = ("<record>", ("R", rp))
                 return rest(env)
+        # store to a declared attribute of a record parameter (third round, `attr_stores`)
+        if len(targets) == 1 and isinstance(targets[0], ast.Attribute) and getattr(self, "attr_stores", None):
+            rp = self.record_path(targets[0], env)
+            if rp in self.attr_stores:
+                if st not in self.node.body or isinstance(st, ast.AugAssign):
+                    self.fail(st, "attribute store outside the top level of the function body / augmented")
+                pre, val = self.expr(value, env)
+                if val[2] != N:
+                    self.fail(st, "attribute store of something that is not a number")
+                ln = self.fresh(rp.replace(".", "_"))
+                pre.append(("letp", ln, val[1], None))
+                env.d["@" + rp] = (ln, N)
+                return self.wrap_pre(pre, rest(env))
         # subscript store  l[i] = v
         if len(targets) == 1 and isinstance(targets[0], ast.Subscript):
             return self.subscript_store(st, targets[0], value, env, rest)
@@ -843,10 +884,16 @@ class FnTranslator:
                 self.bind_target(tg, val, env, pre)
         return self.wrap_pre(pre, rest(env))
 
+    def in_loop(self, st):
+        return any(isinstance(n, (ast.For, ast.While, ast.ListComp)) and any(m is st for m in ast.walk(n))
+                   for n in ast.walk(self.node))
+
     def opaque_assign(self, st, call, targets, env, rest):
-        if st not in self.node.body:
+        # third round, `opaque_in_branches`: also inside `if` branches (never inside a loop, where the result could
+        # depend on the iteration): the assumption is the same -- were the call evaluated, it would return these values
+        if st not in self.node.body and not (self.cfg.get("opaque_in_branches") and not self.in_loop(st)):
             self.fail(st, "opaque call outside the top level of the function body")
-        shapes = self.opaque[ast.unparse(call.func)]
+        shapes = self.opaque[ast.unparse(call.func if isinstance(call, ast.Call) else call)]
         if len(targets) != 1:
             self.fail(st, "chained assignment of an opaque call")
         tg = targets[0]
@@ -888,9 +935,27 @@ class FnTranslator:
         if val[2] != sh[1]:
             self.fail(st, f"store of a {shape_str(val[2])} into a list of {shape_str(sh[1])}")
         ln2 = self.fresh(nm)
-        pre = pre + p2 + [("let", ln2, f"pySetItem {ln} {idx[1]} {val[1]}", None)]
+        # a local created by `bytearray(n)` (third round): the store checks the byte range
+        setter = "pySetByte" if nm in self.bytearray_names() else "pySetItem"
+        pre = pre + p2 + [("let", ln2, f"{setter} {ln} {idx[1]} {val[1]}", None)]
         env.d[nm] = (ln2, sh)
         return self.wrap_pre(pre, rest(env))
+
+    def bytearray_names(self):
+        """local names bound by `name = bytearray(..)`; such a name must not be bound in any other way (third round)"""
+        if not hasattr(self, "_ba_names"):
+            ba, other = set(), set()
+            for n in ast.walk(self.node):
+                if isinstance(n, ast.Assign) and len(n.targets) == 1 and isinstance(n.targets[0], ast.Name):
+                    is_ba = isinstance(n.value, ast.Call) and isinstance(n.value.func, ast.Name) and n.value.func.id == "bytearray"
+                    (ba if is_ba else other).add(n.targets[0].id)
+                elif isinstance(n, (ast.AugAssign, ast.AnnAssign, ast.For)) and isinstance(n.target, ast.Name):
+                    other.add(n.target.id)
+            params = {a.arg for a in self.node.args.args}
+            if ba & (other | params):
+                self.fail(self.node, "a `bytearray` local is also bound to something else")
+            self._ba_names = ba
+        return self._ba_names
 
     def expr_stmt(self, st, env, rest):
         v = st.value
@@ -1425,6 +1490,8 @@ class FnTranslator:
             if dotted not in self.record_lists:
                 self.record_lists[dotted] = self.param_name(dotted.replace(".", "_").replace("()", ""))
             return [], ("atom", self.record_lists[dotted], L(N))
+        if dotted is not None and env.d.get("@" + dotted):
+            return [], ("atom", env.d["@" + dotted][0], N)      # the value of the last store (`attr_stores`)
         if dotted is not None:
             if dotted not in self.record_attrs:
                 self.record_attrs[dotted] = self.param_name(dotted.replace(".", "_").replace("()", ""))
@@ -1467,6 +1534,12 @@ class FnTranslator:
             elif isinstance(n, ast.Call) and not n.args and not n.keywords and isinstance(n.func, ast.Attribute):
                 path.append(n.func.attr + "()")
                 n = n.func.value
+            elif self.cfg.get("record_str_keys") and isinstance(n, ast.Subscript) and isinstance(n.slice, ast.Constant) \
+                    and isinstance(n.slice.value, str) and n.slice.value.isidentifier():
+                # third round: `rec.attrs["padding"]` -- a look-up with a literal string key is a path segment (assumed
+                # present: a missing key would raise `KeyError`, which is not modelled)
+                path.append("item_" + n.slice.value)
+                n = n.value
             else:
                 break
         if isinstance(n, ast.Name) and n.id in env.d and env.d[n.id] is not None and env.d[n.id][1][0] == "R" and path:
@@ -1698,6 +1771,23 @@ class FnTranslator:
             return pre, ("pure", "(" + ", ".join(comps) + ")", NT(node.func.id))
         if isinstance(node.func, ast.Name) and node.func.id not in env.d:
             f = node.func.id
+            if f == "isinstance" and len(node.args) == 2 and not node.keywords:
+                # third round: `isinstance(x, int)` / `isinstance(x, np.intN)` of an integer value: a test of the run-time tag
+                t = "py" if (isinstance(node.args[1], ast.Name) and node.args[1].id == "int" and "int" not in env.d) \
+                    else self.np_type(node.args[1])
+                if t is None:
+                    self.fail(node, "`isinstance` against something other than `int` / `np.intN`")
+                pre, a = self.expr(node.args[0], env)
+                if a[2] != N:
+                    self.fail(node, "`isinstance` of something that is not a number")
+                return pre, ("pure", f"(Num.isinst {a[1]} Ty.{t})", B)
+            if f == "bytearray" and len(node.args) == 1 and not node.keywords:
+                # third round: `bytearray(n)` with an integer count (a list of zero bytes; stores go through `pySetByte`)
+                pre, (a,) = self.args_of(node, env, 1)
+                if a[2] != N:
+                    self.fail(node, "`bytearray` of something that is not an integer count")
+                r = self.tmp()
+                return pre + [("let", r, f"pyByteArray {a[1]}", None)], ("atom", r, L(N))
             if f == "int":
                 pre, (a,) = self.args_of(node, env, 1)
                 if a[2] == B:
